@@ -91,11 +91,11 @@ RevVarint(b, wide) ==
       ELSE IF ~wide \/ L < 9 THEN Bad
       ELSE [ok |-> TRUE, n |-> 9, mag |-> SubSeq(b, L-8, L-1)]
 
-\* size varint: must also fit the model's integers (anything >= 2^31 exceeds every input)
+\* size varint: must also fit the model's integers
 RevSize(b) ==
     LET r == RevVarint(b, FALSE) IN
     IF ~r.ok THEN Bad
-    ELSE IF r.mag[5] >= 128 THEN Bad
+    ELSE IF r.mag[5] >= 1 THEN Bad         \* 2^24 and more: beyond every input of the model (and keeps sums inside TLC integers)
     ELSE [ok |-> TRUE, n |-> r.n, v |-> N8(r.mag)]
 
 \* ---------------------------------------------------------------- values
